@@ -2,7 +2,7 @@
 import random
 from . import common as C, vec as V
 
-CMP = {'less': 0, 'greater': 1, 'mod': 2, 'stateful': 3, 'mix': 4, 'transp': 5}
+CMP = {'less': 0, 'greater': 1, 'mod': 2, 'stateful': 3, 'mix': 4, 'transp': 5, 'selfref': 6}
 UVEC = {'amc': 0, 'small': 1, 'fixed': 2, 'std': 3}
 
 class SetCfg:
@@ -16,7 +16,7 @@ class SetCfg:
                 f'CFG_UVEC={UVEC[self.uvec]}', f'CFG_CMP={CMP[self.cmp]}', f'CFG_CAT={0 if self.cat == "int" else 2}', f'CFG_UCAP={self.ucap}']
     def claims_tr(self):
         """expected value of the container's trivially_relocatable trait (conjunction of its parts)"""
-        if self.cat != 'int':
+        if self.cat != 'int' or self.cmp == 'selfref':
             return False
         if self.impl == 'flat':
             return self.uvec != 'std'
